@@ -165,7 +165,9 @@ type replayFile struct {
 func matchKnown(k KnownFile, prop string, o *ObSummary) *KnownFinding {
 	for i := range k.Findings {
 		f := &k.Findings[i]
-		if f.Kind != "known" || f.Property != prop || f.Fn != o.Fn || f.Class != o.Class {
+		// a finding is about the code: it applies to every property the function
+		// serves (it is recorded under the property it was found for)
+		if f.Kind != "known" || f.Fn != o.Fn || f.Class != o.Class {
 			continue
 		}
 		if f.Label != "" && !strings.HasSuffix(o.Name, "#"+f.Label) {
